@@ -64,7 +64,7 @@ def setup(tier, seed):
             # histories on a package in which one model emits nothing in one band (its rows are undefined, and must stay so)
             for s0 in ((0, 3) if tier == 'quick' else range(N_SRC)):
                 out.append({'kind': 'hist', 'mode': mode, 'variant': iv, 'first_source': s0, 'dead': True})
-            # histories of very faint sources (photometry of order 1e-8 mJy): different sources, however close in absolute terms
+            # histories of very faint sources (photometry of order 1e-11 mJy and fainter): different sources, however close in absolute terms
             for s0 in ((0, 6) if tier == 'quick' else range(N_SRC)):
                 out.append({'kind': 'hist', 'mode': mode, 'variant': iv, 'first_source': s0, 'faint': True})
             # scale: a few hundred models, scrambled and reversed (most of them clipped at an end of the A_V range)
@@ -297,7 +297,7 @@ def run_case(ctx, case, rec, d):
             rec.cls('history-on-package-with-a-dead-model')
         kk = fc.law_k('power', [fc.BAND_WAV[b] for b in B4])
         base = (f[3] if mode == '2d' else f[3][:, 1]) * 10 ** (1.1 * kk) * (2.0 if mode == '2d' else 0.7)
-        srcs = _sources(seed, base * (1e-9 if case.get('faint') else 1.0), mode)
+        srcs = _sources(seed, base * (1e-12 if case.get('faint') else 1.0), mode)
         if case.get('faint'):
             rec.cls('history-of-faint-sources')
         rec.cls('source-with-limits')
